@@ -17,25 +17,37 @@ VERIF = K.VERIF
 REPLAY_DIR = os.path.join(VERIF, "replay")
 
 
-def _extract_values(text):
-    """Flatten Kani's concrete_vals (vec![..] per nondet) into one byte stream."""
-    m = re.search(r"let concrete_vals: Vec<Vec<u8>> = vec!\[(.*?)\n\s*\];", text, re.S)
-    if not m:
-        return b""
-    out = bytearray()
-    for v in re.finditer(r"vec!\[([0-9,\s]*)\]", m.group(1)):
-        for x in v.group(1).split(","):
-            x = x.strip()
-            if x:
-                out.append(int(x))
-    return bytes(out)
+def _extract_entries(text, failed_descriptions):
+    """Kani's concrete-playback tests -> the nondet entries of the test that
+    belongs to a failed assertion (not to a cover). Entries keep their sizes:
+    the sliced trace omits don't-care values, so positions are unknown."""
+    tests = re.findall(r"/// Check for `(\w+)`: \"(.*?)\"\s*\n\s*#\[test\]\s*fn (\w+)\(\) \{(.*?)\n\}", text, re.S)
+    best = None
+    for kind, desc, name, body in tests:
+        if kind == "cover":
+            continue
+        score = 1 + (2 if any(d.strip('"') in desc or desc.strip('"') in d for d in failed_descriptions) else 0)
+        m = re.search(r"let concrete_vals: Vec<Vec<u8>> = vec!\[(.*?)\n\s*\];", body, re.S)
+        entries = []
+        if m:
+            for v in re.finditer(r"vec!\[([0-9,\s]*)\]", m.group(1)):
+                bs = bytes(int(x) for x in v.group(1).split(",") if x.strip())
+                entries.append(bs)
+        if best is None or score > best[0]:
+            best = (score, entries, desc)
+    return (best[1], best[2]) if best else ([], None)
 
 
-def run_native(harness, values_hex, release=False, timeout=900):
+def run_native(harness, values_hex, release=False, timeout=900, entries=None):
     env = dict(os.environ)
     env["CARGO_NET_OFFLINE"] = "true"
     env["RUSTFLAGS"] = "--cfg kani " + K.GUARD
-    env["KANI_REPLAY_VALUES"] = values_hex
+    env.pop("KANI_REPLAY_ENTRIES", None)
+    env.pop("KANI_REPLAY_VALUES", None)
+    if entries is not None:
+        env["KANI_REPLAY_ENTRIES"] = ";".join("%d:%s" % (len(e), e.hex()) for e in entries) + ";"
+    else:
+        env["KANI_REPLAY_VALUES"] = values_hex
     env["RUST_BACKTRACE"] = "0"
     cmd = ["cargo", "test", "--offline", "--features", "replay", "--target-dir", os.path.join(K.TARGET_ROOT, "replay")]
     if release:
@@ -50,9 +62,13 @@ def run_native(harness, values_hex, release=False, timeout=900):
         return {"reproduced": False, "why": "replayed values violate a harness assumption", "output": out[-2000:]}
     if re.search(r"running 0 tests", out) and "1 failed" not in out and "1 passed" not in out:
         return {"reproduced": False, "why": "harness not found in native build", "output": out[-2000:]}
+    if "REPLAY-NOT-REPRODUCED" in out:
+        return {"reproduced": False, "why": "no alignment of the solver's values makes the native harness fail", "output": out[-1500:]}
     if re.search(r"test result: FAILED\. 0 passed; 1 failed", out):
         pm = re.search(r"panicked at ([^\n]*)\n([^\n]*)", out)
-        return {"reproduced": True, "why": "", "panic": (pm.group(1) + " " + pm.group(2)) if pm else "", "output": out[-2000:]}
+        sm = re.search(r"REPLAY-STREAM ([0-9a-f]*)", out)
+        return {"reproduced": True, "why": "", "panic": (pm.group(1) + " " + pm.group(2)) if pm else "",
+                "stream": sm.group(1) if sm else None, "output": out[-2000:]}
     if re.search(r"test result: ok\. 1 passed", out):
         return {"reproduced": False, "why": "native run passes with the solver's values", "output": out[-1000:]}
     return {"reproduced": False, "why": "native build/run failed (rc=%s)" % p.returncode, "output": out[-3000:]}
@@ -61,17 +77,26 @@ def run_native(harness, values_hex, release=False, timeout=900):
 def replay_counterexample(prop, ob, res):
     """Re-run the failing harness with concrete playback, then natively."""
     os.makedirs(os.path.join(REPLAY_DIR, prop), exist_ok=True)
-    pb = K.run_obligation(ob, 15, playback=True)
+    # the playback run keeps the full trace: give it more memory and time
+    import copy
+    ob2 = copy.copy(ob)
+    ob2.mem_gb = min(44, max(24, 2 * ob.mem_gb))
+    ob2.timeout = max(1800, 2 * ob.timeout)
+    # --slice-formula keeps the playback run as small as the deciding run
+    # (Kani drops it for playback; without it this run needs 10x the memory)
+    ob2.extra = list(ob.extra) + ["--cbmc-args", "--slice-formula"]
+    pb = K.run_obligation(ob2, 15, playback=True)
     with open(pb["log"], "rb") as f:
         text = f.read().decode("utf-8", "replace")
-    vals = _extract_values(text)
-    hexv = vals.hex()
-    dev = run_native(ob.harness, hexv, release=False)
+    entries, which = _extract_entries(text, [f["description"] for f in res.get("failed", [])])
+    dev = run_native(ob.harness, "", release=False, entries=entries)
+    hexv = dev.get("stream") or ""
     rel = run_native(ob.harness, hexv, release=True) if dev["reproduced"] else {"reproduced": False, "why": "skipped"}
     h = hashlib.sha1((ob.harness + hexv).encode()).hexdigest()[:10]
     path = os.path.join(REPLAY_DIR, prop, "%s_%s.json" % (ob.harness.replace("::", "__"), h))
     doc = {
         "property": prop, "kind": "kani", "harness": ob.harness, "values_hex": hexv,
+        "solver_entries": [e.hex() for e in entries],
         "seed": int(os.environ.get("VERIF_SEED", "0") or 0), "tier": os.environ.get("VERIF_TIER_EFFECTIVE", "quick"),
         "failed_checks": res.get("failed", []), "what": ob.desc,
         "native_dev": {k: dev.get(k) for k in ("reproduced", "why", "panic")},
